@@ -395,6 +395,7 @@ def check_main(prop, tier, seed, nworkers=None):
     if nworkers % HASHSEED_CLASSES:
         nworkers = max(HASHSEED_CLASSES, nworkers - nworkers % HASHSEED_CLASSES)
     from sim import invoker
+    invoker.sweep_stale_scratch()
     outdir = invoker.new_dir("results")
     known = load_known()
     total = None
@@ -408,7 +409,7 @@ def check_main(prop, tier, seed, nworkers=None):
             for w, rc, tail in failed:
                 harness_fail.append("campaign %s worker %d rc=%s\n%s" % (campaign.name, w, rc, tail))
             agg = merge(results)
-            per_campaign[campaign.name] = agg
+            per_campaign[campaign.name] = {"runs": agg["runs"], "invocations": agg["invocations"]}
             if total is None:
                 total = agg
             else:
@@ -484,7 +485,7 @@ def check_main(prop, tier, seed, nworkers=None):
         "distinct_states": len(total["states"]),
         "distinct_transitions": len(total["transitions"]),
         "budget_cap_hit": bool(total["cap_hit"]),
-        "campaigns": {name: {"runs": a["runs"], "invocations": a["invocations"]} for name, a in per_campaign.items()},
+        "campaigns": per_campaign,
         "components": getattr(mod, "COMPONENTS", {}),
         "known_findings_hit": {k: n for k, (_e, n) in known_hits.items()},
         "other_property_violations": other_counts,
